@@ -184,8 +184,8 @@ class Corr:
         else:
             # There are no checks here yet. There are so many possible scenarios, where this can go wrong.
             if normalize:
-                vector_l = [vl / np.sqrt(vl @ vl) for vl in vector_l]
-                vector_r = [vr / np.sqrt(vr @ vr) for vr in vector_r]
+                vector_l = [None if vl is None else vl / np.sqrt(vl @ vl) for vl in vector_l]
+                vector_r = [None if vr is None else vr / np.sqrt(vr @ vr) for vr in vector_r]
 
             newcontent = [None if (_check_for_none(self, self.content[t]) or vector_l[t] is None or vector_r[t] is None) else np.asarray([vector_l[t].T @ self.content[t] @ vector_r[t]]) for t in range(self.T)]
         return Corr(newcontent)
